@@ -484,7 +484,7 @@ func (inst *InstCall) LLString() string {
 	}
 	buf.WriteString(")")
 	for _, attr := range inst.FuncAttrs {
-		fmt.Fprintf(buf, " %s", attr)
+		fmt.Fprintf(buf, " %s", funcAttrString(attr))
 	}
 	if len(inst.OperandBundles) > 0 {
 		buf.WriteString(" [ ")
